@@ -4,7 +4,6 @@
 //     /repo/src/counter_marker.rs; they are proved here by `proof_for_contract` harnesses over a
 //     fully symbolic 32-bit word pair (all 2^32 states: complete, loop-free).
 // F2: getters / flag setters / decoders / constructor: assume-assert harnesses over the same state.
-#![allow(dead_code, unused_imports)]
 use super::*;
 
 // ---------------------------------------------------------------- spec functions
